@@ -113,9 +113,24 @@ def run_case(case):
         # (a multicast reuses the frame id of the preceding direct message: same origin and id with ANOTHER destination is
         # something the library itself produces; same origin, id AND destination for two messages is outside the protocol)
         per_sender.setdefault((m["from"], m["id"], m["to"]), set()).add((m["type"], m["len"], m["seed"]))
-    if any(len(v) > 1 for v in per_sender.values()):
-        res.inconclusive = "one sender uses one frame id for two different messages (outside the protocol)"
-        return res
+    # one origin using one frame id for two different messages to one destination: two consecutive multicast() calls do
+    # that (the call does not draw a new id).  A receiver cannot tell such fragments apart, so it can only be judged
+    # when no receiver could be fooled: the messages of such a group arrive one after the other (not interleaved) and
+    # each later one starts with its FIRST fragment, which restarts any reassembly
+    same_key = {}
+    for mi, m in enumerate(case["msgs"]):
+        same_key.setdefault((m["from"], m["id"], m["to"]), []).append(canon[mi])
+    for group in same_key.values():
+        group = sorted(set(group))
+        if len(group) < 2:
+            continue
+        seq = [a[1] for a in case["arrivals"] if a[0] == "f" and a[1] in group]
+        order = [g for i, g in enumerate(seq) if i == 0 or seq[i - 1] != g]
+        headless = any(next((a[2] for a in case["arrivals"] if a[0] == "f" and a[1] == g), 0) != 0 for g in order[1:])
+        if len(order) != len(set(order)) or headless:
+            res.inconclusive = "messages with one origin, id and destination arrive interleaved or without their first fragment (no receiver can tell them apart)"
+            return res
+        res.label("same-key-messages-in-sequence")
     plains = [rfrag.pack_header(p["from"], p["to"], p["id"], p["type"], 0) + _body(p["seed"], p["len"]) for p in case.get("plains", [])]
     mode = case["mode"]
     arrivals = case["arrivals"]
@@ -308,6 +323,18 @@ def _enum(full):
                 for tail in ([["f", 0, k - 1, "b"]], [["f", 0, k - 2, "b"], ["f", 0, k - 1, "b"]], stream):
                     yield {"mode": "fresh", "msgs": one, "plains": six, "arrivals": [["p", i] for i in range(6)] + stream + [["deq"]] * 7 + tail}
                     yield {"mode": "reuse", "msgs": one, "plains": [], "arrivals": stream + stream + [["deq"]] * 2 + tail}
+        # E: two DIFFERENT messages of one origin with the same frame id and destination, one after the other (what two
+        # consecutive multicast() calls put on air), every loss/duplication word for each, 3+3, 2+3 and 3+2 fragments
+        for to in (0o100, 0):
+            for l1, l2 in ((60, 50), (30, 60), (60, 30)):
+                pair = [{"from": 0o1, "to": to, "id": 11, "type": 1, "len": l1, "seed": 6}, {"from": 0o1, "to": to, "id": 11, "type": 2, "len": l2, "seed": 7}]
+                k1, k2 = (l1 + 23) // 24, (l2 + 23) // 24
+                for w1 in itertools.product((0, 1, 2) if full else (0, 1), repeat=k1):
+                    for w2 in itertools.product((0, 1, 2) if full else (0, 1), repeat=k2):
+                        arr = [["f", 0, j, "b"] for j, n in enumerate(w1) for _ in range(n)] + [["f", 1, j, "b"] for j, n in enumerate(w2) for _ in range(n)]
+                        for mode in modes:
+                            yield {"mode": mode, "msgs": pair, "plains": [], "arrivals": arr}
+                            yield {"mode": mode, "msgs": pair, "plains": [], "arrivals": [x for a in arr for x in (a, ["deq"])]}
     return gen
 
 
@@ -327,7 +354,7 @@ def _strategy(modes):
                 ln = draw(st.integers((nfrag - 1) * 24 + 1, min(nfrag * 24, 144 if nfrag < 7 else 168)))
                 fid = shared_id if draw(st.booleans()) else draw(st.integers(0, 0xFFFF))
                 to = draw(st.sampled_from([0, 0, 0o100]))
-                while (fid, to) in used:  # a sender never reuses a frame id for another message to the same destination
+                while (fid, to) in used and draw(st.integers(0, 3)):  # mostly a fresh id per destination; sometimes reused (multicasts do)
                     fid = (fid + 1) & 0xFFFF
                 used.add((fid, to))
                 msgs.append({"from": s, "to": to, "id": fid,
